@@ -1426,7 +1426,11 @@ impl<'a> Gen<'a> {
                 }
             }
             2 => {
-                if self.p.faults {
+                if self.p.faults && self.t.chance(1, 5) {
+                    // the one int no literal can spell: i32::MIN, as (MIN + 1) - 1
+                    // (its negation, its quotient and its remainder by -1 overflow)
+                    Expr::Bin("-", Box::new(Expr::int(i32::MIN + 1)), Box::new(Expr::int(1)))
+                } else if self.p.faults {
                     let c = [
                         i32::MAX,
                         i32::MIN + 1,
@@ -1460,7 +1464,9 @@ impl<'a> Gen<'a> {
             }
             6 => {
                 let op = ["/", "%"][self.t.pick(2)];
-                let d = if self.p.faults && self.t.chance(1, 2) {
+                let d = if self.p.faults && self.t.chance(1, 6) {
+                    Expr::int(-1)
+                } else if self.p.faults && self.t.chance(1, 2) {
                     self.int_expr(sc, depth - 1)
                 } else {
                     Expr::int(self.t.range(1, 7))
